@@ -22,6 +22,19 @@ go build ./... >>$LOG 2>&1 || { echo "BUILD FAILED" | tee -a $LOG; exit 1; }
 echo "== full suite with change" | tee -a $LOG
 go test -vet=off -count=1 ./... >>$LOG 2>&1; SUITE=$?
 echo "suite exit=$SUITE" | tee -a $LOG
+if [ $SUITE != 0 ]; then
+  # The suite has a few wall-clock assertions (ping delays, queue shrink timers) that fail under machine
+  # load. Re-run exactly the failed tests, three times, in their packages; the change counts as suite-green
+  # only if every one of them passes every time.
+  FAILED=$(grep -h '^--- FAIL: ' $LOG | awk '{print $3}' | sort -u | paste -sd'|')
+  FPKGS=$(grep -h '^FAIL[[:space:]]' $LOG | awk '{print $2}' | grep '/' | sort -u)
+  if [ -n "$FAILED" ] && [ -n "$FPKGS" ]; then
+    echo "== re-running failed tests: $FAILED in $FPKGS" | tee -a $LOG
+    go test -vet=off -count=3 -run "^($FAILED)\$" $FPKGS >>$LOG.rerun 2>&1; RR=$?
+    echo "rerun exit=$RR" | tee -a $LOG
+    if [ $RR = 0 ]; then SUITE=0; echo "suite failure was a timing flake (rerun x3 green)" | tee -a $LOG; fi
+  fi
+fi
 for d in $DEMOS; do cp /tmp/seedconfirm-keep/$SID/$d $d; done
 PKGS=$(for d in $DEMOS; do echo ./$(dirname $d); done | sort -u)
 echo "== demo with change ($PKGS)" | tee -a $LOG
